@@ -675,6 +675,58 @@ def create_attribute(src, tree, conf_tree):
     return text, ("create_attribute", T.sha(src, fn))
 
 
+KNOWN_DECORATORS = {"property", "staticmethod", "classmethod", "abstractmethod"}
+
+
+def hygiene_of_callables(tree, rel):
+    """every function of the anchored classes: only the decorators the model knows (no memoisation), and every
+    optional parameter defaults to None or an immutable constant (no shared mutable default)"""
+    facts = []
+    for cls in [n for n in ast.walk(tree) if isinstance(n, ast.ClassDef)]:
+        for fn in [n for n in cls.body if isinstance(n, ast.FunctionDef)]:
+            for d in fn.decorator_list:
+                name = T.dotted(d if not isinstance(d, ast.Call) else d.func)
+                if name not in KNOWN_DECORATORS:
+                    T.fail(rel, fn, "decorator %r on %s.%s is not one the model knows (memoisation changes object identity)" % (name, cls.name, fn.name))
+            for dflt in list(fn.args.defaults) + [d for d in fn.args.kw_defaults if d is not None]:
+                if not (isinstance(dflt, ast.Constant) and (dflt.value is None or isinstance(dflt.value, (bool, int, float, str)))):
+                    T.fail(rel, fn, "parameter default of %s.%s is not None / an immutable constant" % (cls.name, fn.name))
+            facts.append("%s.%s" % (cls.name, fn.name))
+    return facts
+
+
+def constructors(csrc, ctree):
+    """the containers copy the data they are given and make their own attribute dict when none is passed"""
+    fn = T.find_def(ctree, "_BaseDataContainer.__init__", CONT)
+    body = T.body_nodoc(fn)
+    ok = False
+    for st in body:
+        if (isinstance(st, ast.If) and isinstance(st.test, ast.Compare) and isinstance(st.test.ops[0], ast.Is)
+                and T.dotted(st.test.left) == "attributes" and len(st.body) == 1 and isinstance(st.body[0], ast.Assign)
+                and T.dotted(st.body[0].targets[0]) == "self._attr" and isinstance(st.body[0].value, (ast.Call, ast.Dict))
+                and (T.dotted(getattr(st.body[0].value, "func", None)) == "dict" and not st.body[0].value.args
+                     if isinstance(st.body[0].value, ast.Call) else not st.body[0].value.keys)):
+            ok = True
+    if not ok:
+        T.fail(CONT, fn, "_BaseDataContainer.__init__ does not make a fresh dict when attributes is None")
+    for cls, fields in (("DataContainer", {"self._data": "data"}), ("CornerDataContainer", {"self._elem": "elem", "self._adj": "adj"})):
+        fn = T.find_def(ctree, cls + ".__init__", CONT)
+        seen = {}
+        for st in T.body_nodoc(fn):
+            if isinstance(st, ast.Assign) and T.dotted(st.targets[0]) in fields:
+                par = fields[T.dotted(st.targets[0])]
+                v = st.value
+                if not (isinstance(v, ast.IfExp) and isinstance(v.test, ast.Compare) and isinstance(v.test.ops[0], ast.Is)
+                        and T.dotted(v.test.left) == par and isinstance(v.body, ast.List) and not v.body.elts
+                        and isinstance(v.orelse, ast.Call) and T.dotted(v.orelse.func) == "list"
+                        and [T.dotted(x) for x in v.orelse.args] == [par]):
+                    T.fail(CONT, st, "%s.__init__ does not store `[] if %s is None else list(%s)`" % (cls, par, par))
+                seen[par] = True
+        if len(seen) != len(fields):
+            T.fail(CONT, fn, "%s.__init__ does not initialise every data field" % cls)
+    return "Definition container_copies_its_data : bool := true.\n"
+
+
 def gen():
     src, tree = T.load(ATTR)
     csrc, ctree = T.load(CONT)
@@ -712,6 +764,9 @@ def gen():
     t, ps = container(csrc, ctree, "CornerDataContainer", "cdc", ["self._elem", "self._adj"], True)
     body += t
     parts += ps
+    hygiene_of_callables(tree, ATTR)
+    hygiene_of_callables(ctree, CONT)
+    body += constructors(csrc, ctree)
     out = T.header("C05: decision expressions, tables and growth amounts of mesh_attributes.py / data_container.py", parts)
     out += "From Coq Require Import ZArith List Bool.\nImport ListNotations.\nRequire Import MV.C05.Types.\nOpen Scope Z_scope.\n\n"
     out += body
